@@ -28,7 +28,7 @@
    The whole-run statements outside the fragment are explored by the direct strict-vs-lazy stream and both
    correspondence streams. *)
 From TSG Require Import Model.Strict Model.Lazy Model.Run Model.Stdlib Proofs.Captures Proofs.MonadFacts Proofs.K7
-  Proofs.SLExpr Proofs.StrictLazy Proofs.SLExample.
+  Proofs.SLExpr Proofs.StrictLazy Proofs.SLExample Proofs.SL2Expr Proofs.SL2Stmt Proofs.SL2Whole Proofs.SL2Example.
 
 (* `$k` has the same value in both modes; out of range is UndefinedRegexCapture in both *)
 Theorem lazy_regex_capture_partial : forall t fl glob call fuel fuel' (le : lenv) (ll : llenv) i s p sl pl,
@@ -102,6 +102,36 @@ Theorem strict_lazy_adequate_partial :
   exists lfuel0, forall lfuel, (lfuel0 <= lfuel)%nat ->
     exists ls pl, run_lazy t fl config0 supplied None regexes find call lfuel (lmatches_of ms) g0 = Ok (ls, pl) /\ l_graph ls = s_graph s.
 Proof. exact @strict_lazy_adequate_lemma. Qed.
+
+(* WHOLE RUN, version 2: the fragment WITH scoped variables (`file_ok2`, built from `fexpr2` of Proofs/SL2Expr.v and
+   `fstmt2` of Proofs/SL2Stmt.v; see the header).  `purev` names the unscoped variables that never depend on a
+   scoped variable; `f_inherited fl = []`: no inherited names. *)
+Theorem strict_lazy_same_graph_scoped_partial :
+  forall {rx : Type} t fl supplied (regexes : list rx) find call (okfn : ident -> Prop) (purev : ident -> bool) fuel ms g0 s p,
+  (forall f, okfn f -> pure_fn call f) ->
+  f_inherited fl = [] ->
+  file_ok2 okfn purev fl (f_stanzas fl) ms ->
+  run_strict t fl config0 supplied None regexes find call fuel ms g0 = Ok (s, p) ->
+  forall lfuel,
+    match run_lazy t fl config0 supplied None regexes find call lfuel (lmatches_of ms) g0 with
+    | Ok (ls, _) => l_graph ls = s_graph s
+    | OutOfFuel => True
+    | Err _ | Panic _ => False
+    end.
+Proof. exact @strict_lazy_same_graph_scoped_lemma. Qed.
+
+(* the hypotheses hold of a concrete program in which the second stanza reads the scoped variable `n` that the
+   first stanza defined on other matches (also: a scoped read whose scope is a scoped read, a scoped definition
+   by `let`, a pure local variable in the condition of `if`: Proofs/SL2Example.v); both runs are Ok with the
+   same six-node graph *)
+Example strict_lazy_same_graph_scoped_nonvacuous :
+  (forall f, ex2_okfn f -> pure_fn (the_call k7_tree []) f) /\
+  f_inherited ex2_file = [] /\
+  file_ok2 ex2_okfn ex2_purev ex2_file (f_stanzas ex2_file) ex2_matches /\
+  graph_of (run_strict k7_tree ex2_file config0 [[]] None ([] : list regex) rx_captures (the_call k7_tree []) default_fuel ex2_matches []) = Ok ex2_graph /\
+  lgraph_of (run_lazy k7_tree ex2_file config0 [[]] None ([] : list regex) rx_captures (the_call k7_tree []) default_fuel (lmatches_of ex2_matches) []) = Ok ex2_graph /\
+  length ex2_graph = 6%nat.
+Proof. split; [exact ex2_pure|]. split; [reflexivity|]. split; [exact ex2_file_ok|]. split; [exact ex2_strict_ok|]. split; [exact ex2_lazy_ok|reflexivity]. Qed.
 
 (* every function of the standard library except `node` satisfies the purity hypothesis *)
 Theorem stdlib_graph_pure_partial : forall rxo t f, fn_of_name f <> Some FNode -> pure_fn (stdlib_call rxo t) f.
